@@ -70,7 +70,21 @@ def m_cache_after_ack(d):
     open(d + '/src/iodined.c', 'w').write(s[:i] + body + s[j:])
 
 
-MUTANTS = dict(d9=m_d9, nomin=m_nomin, lt0=m_lt0, last=m_last, qmemdata2=m_qmemdata2, nolower=m_nolower,
+def m_ack_first(d):
+    s = open(d + '/src/iodined.c').read()
+    i = s.index("} else if (in[0] == 'P' || in[0] == 'p') {")
+    old = """#ifdef DNSCACHE_LEN
+		/* Check if cached */
+		if (answer_from_dnscache(dns_fd, userid, q))
+			return;
+#endif
+"""
+    j = s.index(old, i)
+    s = s[:j] + "		process_downstream_ack(userid, (unpacked[1] >> 4) & 7, unpacked[1] & 15);\n" + s[j:]
+    open(d + '/src/iodined.c', 'w').write(s)
+
+
+MUTANTS = dict(ackfirst=m_ack_first, d9=m_d9, nomin=m_nomin, lt0=m_lt0, last=m_last, qmemdata2=m_qmemdata2, nolower=m_nolower,
                cacheafterack=m_cache_after_ack)
 
 
